@@ -1,6 +1,7 @@
 package c15
 
 import (
+	"strings"
 	"bytes"
 	"fmt"
 	"testing"
@@ -25,11 +26,13 @@ const (
 	outUnknownDelete
 	outUnknownRemove
 	outNoAgentNodeID // destination is the bare node ID (dtn://node/), for which no agent is registered either
+	outForwardedLater // nobody to forward to at reception; the relay appears later and the bundle is forwarded from the store
+	outFailedThenForwarded // the first attempt fails, the retry from the store succeeds
 	nOutcomes
 )
 
 var outNames = []string{"delivered-to-agent", "addressed-to-node-without-agent", "forwarded", "all-sends-failed", "lifetime-expired", "hop-limit-exceeded",
-	"unknown-block-report-flag", "unknown-block-delete-flag", "unknown-block-remove-flag", "addressed-to-bare-node-id-without-agent"}
+	"unknown-block-report-flag", "unknown-block-delete-flag", "unknown-block-remove-flag", "addressed-to-bare-node-id-without-agent", "forwarded-later-from-the-store", "failed-then-forwarded-on-retry"}
 
 var rptNames = []string{"other-node", "this-node", "dtn:none"}
 
@@ -124,6 +127,7 @@ func run(r *report.Run, c tcase, idx int) error {
 		}
 		wire, _ := m.Encode(nil)
 		refID := m.Src.String() + fmt.Sprintf("-%d-%d", m.Time, m.Seq)
+		refBase := refID
 		if c.fragment {
 			refID += fmt.Sprintf("-%d-%d", m.FragOff, m.Total)
 		}
@@ -132,6 +136,8 @@ func run(r *report.Run, c tcase, idx int) error {
 		switch c.outcome {
 		case outForwarded, outUnknownReport, outUnknownRemove:
 			s.PeerUp("r")
+		case outFailedThenForwarded:
+			s.PeerUpWith("r", func(q *nodesim.Peer) { q.Fail() })
 		case outAllFailed:
 			s.PeerUpWith("r", func(q *nodesim.Peer) { q.Fail() })
 			s.Peer("p").Fail()
@@ -142,6 +148,13 @@ func run(r *report.Run, c tcase, idx int) error {
 		}
 		if c.outcome == outExpired {
 			s.Tick(10 * time.Second) // retry after the lifetime has ended
+		}
+		if c.outcome == outForwardedLater {
+			s.Tick(3 * time.Second)
+			s.PeerUp("r") // the waiting bundle is forwarded from the store
+		}
+		if c.outcome == outFailedThenForwarded {
+			s.Peer("r").OK() // the next retry succeeds
 		}
 		s.Tick(10 * time.Second)
 		r.Evals(1)
@@ -184,7 +197,13 @@ func run(r *report.Run, c tcase, idx int) error {
 				r.Violation("c15.report-undecodable", "administrative-record bundle emitted by the node cannot be decoded: "+err.Error(), wit())
 				return false
 			}
-			if sr.RefBundle.String() != refID {
+			if got := sr.RefBundle.String(); got != refID {
+				// same source, creation time and sequence number but other fragment data: a report about the scenario's
+				// bundle that does not name its exact ID
+				if got == refBase || strings.HasPrefix(got, refBase+"-") {
+					r.Violation("c15.report-wrong-fragment-reference", fmt.Sprintf("report references %s, the bundle is %s", got, refID), wit())
+					return false
+				}
 				return true // about another bundle (e.g. fed-back reports); handled by the cascade check
 			}
 			key := fmt.Sprintf("%s-%d-%d", b.Src, b.Time, b.Seq)
